@@ -91,7 +91,10 @@ AlignOK(ev) ==
         recB   == {d.vars[i].begin : i \in {j \in 1..Len(d.vars) : IsRecVar(vars'[j])}}
         allB   == fixedB \cup recB
         Min(S) == CHOOSE x \in S : \A y \in S : x <= y
-    IN  /\ (a.want_h_align > 0 /\ allB # {}) => Chk("align.header", Min(allB) % a.want_h_align = 0)
+    IN  \* the header alignment places the first fixed-size variable; a file with record variables only begins its data at
+        \* the record section, which the record alignment (when given) places
+        /\ (a.want_h_align > 0 /\ fixedB # {}) => Chk("align.header", Min(fixedB) % a.want_h_align = 0)
+        /\ (a.want_h_align > 0 /\ fixedB = {} /\ recB # {} /\ a.want_r_align = 0) => Chk("align.header", Min(recB) % a.want_h_align = 0)
         /\ (a.want_r_align > 0 /\ recB # {}) => Chk("align.record", Min(recB) % a.want_r_align = 0)
 
 ObsOK(ev) ==
